@@ -69,6 +69,7 @@ type Case struct {
 	InconsA  int         `json:"incons_a,omitempty"`
 	InconsD  int         `json:"incons_d,omitempty"`
 	Perturb  []int       `json:"perturb,omitempty"`
+	AliasLonger bool     `json:"alias_longer,omitempty"` // directed: the only seed is the target itself, whose old content is the blob behind an inserted prefix
 	ZeroTail bool        `json:"zero_tail,omitempty"` // directed: identical seed truncated inside the blob's zero tail
 	SeedDir  int         `json:"seed_dir,omitempty"`  // CLI: >0 = index, previous blob and seeds live in one directory given as --seed-dir, index and directory spelled differently (1 rel dir/abs index, 2 abs dir/rel index, 3 dotted, 4 same)
 	MidRun   *MidRun     `json:"midrun,omitempty"`    // a seed file is modified after validation, while assembling
@@ -175,6 +176,13 @@ func genCase(t *rapid.T) Case {
 		c.Pieces = append(c.Pieces, gen.Piece{Kind: "rand", Len: gen.Around(t, "post", 2*mx, mx, 100), Seed: rapid.Uint64().Draw(t, "s")})
 	case 2: // all zero
 		c.Pieces = []gen.Piece{{Kind: "zero", Len: gen.Around(t, "len", maxLen, mx, 4096)}}
+	case 3: // a run of null chunks around and above the number of chunks one job takes (100 without cloning), with small chunks
+		c.Sizes = rapid.SampledFrom([]gen.Sizes{{Min: 48, Avg: 64, Max: 96}, {Min: 64, Avg: 128, Max: 256}, {Min: 300, Avg: 512, Max: 1024}, {Min: 1000, Avg: 2000, Max: 4096}}).Draw(t, "lnsizes")
+		mx = int(c.Sizes.Max)
+		k := rapid.SampledFrom([]int{99, 100, 101, 101, 150, 199, 200, 201, 250, 301}).Draw(t, "lnk")
+		c.Pieces = []gen.Piece{{Kind: "rand", Len: gen.Around(t, "lnpre", 3*mx, 0, mx, int(c.Sizes.Min)), Seed: rapid.Uint64().Draw(t, "lns1")},
+			{Kind: "zero", Len: k*mx + rapid.IntRange(-1, 1).Draw(t, "lnd")},
+			{Kind: "rand", Len: gen.Around(t, "lnpost", 2*mx, 0, mx, 100), Seed: rapid.Uint64().Draw(t, "lns2")}}
 	default:
 		c.Pieces = gen.Pieces(t, maxLen, mx, int(c.Sizes.Min), 4096)
 	}
@@ -201,6 +209,9 @@ func genCase(t *rapid.T) Case {
 			s.Edits = genEdits(t, "ed", blobLen, true, c.Sizes)
 			if s.Kind == "alias" {
 				alias = true
+				if rapid.Bool().Draw(t, "aliaslen") { // the file being updated in place may be longer or shorter than its new version
+					s.Edits = genEdits(t, "ed2", blobLen, false, c.Sizes)
+				}
 			}
 		case "unrelated":
 			s.Len = gen.Around(t, "ulen", maxLen, mx)
@@ -255,7 +266,18 @@ func genCase(t *rapid.T) Case {
 		c.Missing, c.FailGet, c.Incons = nil, nil, ""
 		c.ZeroTail = true
 	}
-	if len(c.Seeds) > 0 && rapid.IntRange(0, 5).Draw(t, "midrun") == 0 {
+	if !c.ZeroTail && blobLen > 0 && rapid.IntRange(0, 15).Draw(t, "aliaslonger") == 0 {
+		// in-place update of a file whose old version is LONGER than the new one and holds the new version's
+		// chunks further back (data removed / moved to the front): the seed is the target itself, and what it
+		// offers behind the new end is gone once the target has the indexed length
+		k := gen.Around(t, "alk", 3*int(c.Sizes.Max), 1, int(c.Sizes.Min), int(c.Sizes.Max), 4096)
+		c.Seeds = []SeedSpec{{Kind: "alias", Edits: []Edit{{At: 0, Del: 0, Ins: k, Seed: rapid.Uint64().Draw(t, "alseed")}}}}
+		c.Action = rapid.SampledFrom([]int{1, 1, 1, 2, 0}).Draw(t, "alaction")
+		c.N = rapid.SampledFrom([]int{1, 1, 1, 2, 4}).Draw(t, "aln")
+		c.Missing, c.FailGet, c.Incons = nil, nil, ""
+		c.AliasLonger = true
+	}
+	if len(c.Seeds) > 0 && !c.AliasLonger && rapid.IntRange(0, 5).Draw(t, "midrun") == 0 {
 		c.MidRun = &MidRun{Seed: rapid.IntRange(0, 3).Draw(t, "mrseed"), Chunk: rapid.IntRange(0, 1<<16).Draw(t, "mrchunk"),
 			Zero: rapid.Bool().Draw(t, "mrzero"), Fill: byte(rapid.IntRange(1, 255).Draw(t, "mrfill")),
 			Trunc: rapid.SampledFrom([]int{0, 0, 1, 2}).Draw(t, "mrtrunc")}
@@ -603,6 +625,14 @@ func run(c Case) (o hx.Outcome) {
 	}
 	live := storeComplete && incons == "" && !aliasSeed &&
 		(seedsOK || c.Action%3 == 1 || (c.Action%3 == 2 && !missingSeed && !unopenableSeed))
+	// the target itself as the only seed, its old content = inserted prefix + blob, one worker, skip or regenerate: what the
+	// seed offers either lies behind the new end (invalid once the target has its length: skipped / regenerated) or is
+	// copied front to back from further behind in the same file, which a single worker never overwrites before reading it
+	aliasLive := c.AliasLonger && aliasSeed && len(c.Seeds) == 1 && n == 1 && storeComplete && incons == "" && !midRunDone && c.Action%3 != 0
+	if aliasLive {
+		o.Class("alias-seed:longer-old-version:liveness-demanded")
+		live = true
+	}
 	if live && err != nil {
 		o.Fail("C01:fails-with-complete-store"+cl, "store complete and seeds consistent (or skip/regenerate chosen) but AssembleFile failed: %v (blob %d bytes, %d chunks, sizes %v, n=%d, prior=%s, action=%d, seeds=%d stale=%v empty=%v, clone log=%v)",
 			err, len(blob), len(spans), sz, n, priorKind, c.Action, len(seeds), staleSeed, emptySeed, emu.Log)
@@ -616,8 +646,32 @@ func run(c Case) (o hx.Outcome) {
 	if emptySeed {
 		o.Class("empty-seed")
 	}
+	{ // longest run of consecutive max-size null chunks in the index
+		run, best := 0, 0
+		for _, sp := range spans {
+			if sp.Len == sz.Max && allZero(blob[sp.Start:sp.Start+sp.Len]) {
+				run++
+				if run > best {
+					best = run
+				}
+			} else {
+				run = 0
+			}
+		}
+		if best > 100 {
+			o.Class("null-run>100-chunks")
+			if !c.Clone {
+				o.Class("null-run>100-chunks:no-clone")
+			}
+		}
+	}
 	if aliasSeed {
 		o.Class("alias-seed")
+		if len(aliasData) > len(blob) {
+			o.Class("alias-seed:old-version-longer")
+		} else if len(aliasData) < len(blob) {
+			o.Class("alias-seed:old-version-shorter")
+		}
 	}
 	if staleSeed {
 		o.Class("stale-seed")
@@ -711,7 +765,7 @@ var spec = &hx.Spec[Case]{
 		"oracle: nil error => file length == index length and every range hashes to its ID (== blob); complete store + consistent or skippable/regenerable seeds => nil error; never hang/panic. " +
 		"non-trivial = at least one chunk came from a seed, was found in place, or bytes were cloned; distinct by (content hash, sizes, seed kinds, prior, action, n, clone, inconsistency)",
 	Assumptions: []string{"block cloning is emulated in-process (rules of fs/remap_range.c), real reflink filesystems are not available", "worker interleavings perturbed at hook sites, not enumerated", "chunk IDs recomputed with crypto/sha512"},
-	Required: []string{"action:bailout", "action:skip", "action:regenerate", "prior:absent", "prior:empty", "prior:garbage", "prior:longer", "prior:shorter", "prior:older", "prior:exact",
+	Required: []string{"null-run>100-chunks", "null-run>100-chunks:no-clone", "alias-seed:old-version-longer", "alias-seed:longer-old-version:liveness-demanded", "action:bailout", "action:skip", "action:regenerate", "prior:absent", "prior:empty", "prior:garbage", "prior:longer", "prior:shorter", "prior:older", "prior:exact",
 		"empty-blob", "empty-seed", "alias-seed", "stale-seed", "unopenable-seed", "seed-changed-mid-run", "seed-truncated-mid-run", "stale-seed:truncated-inside-zero-tail", "clone-on:max<block", "clone-on:min>block", "clone-on:inplace-seed", "clone-on:isolated-small-null-chunk",
 		"chunks-from-seed", "chunks-in-place", "bytes-cloned", "liveness-demanded", "inconsistent-index:size-shift"},
 	// (with $VERIF_DESYNC_BIN: TestMain adds the CLI classes)
